@@ -5,7 +5,7 @@ import Optyx.Drive.Analysis
 def dispatchAnalysis (line : String) : String :=
   match Optyx.Sexp.parseLine line with
   | some (.atom cmd :: args) =>
-    match Optyx.Drive.handleAnalysis cmd args with
+    match Optyx.Drive.AnalysisNs.handleAnalysis cmd args with
     | some out => out
     | none => "bad-op"
   | _ => "bad-line"
